@@ -43,6 +43,11 @@ RULE = ("corpus/C09 hand seeds first; join: 2-5 generated inputs (1-6 events "
         "random words handed out in non-alphabetical order; split: "
         "N=1..12, split sizes 1, 2, 3, divisors, N-1, N, N+1, 2N, optional "
         "image feature with all-zero first/last/inner image, both skip flags; "
+        "with probability 0.35 mask+contour and 0.3 trace features (also in "
+        "joinsplit), each part checked for its sample suffix i/num_files and "
+        "its basin map back to the input; jointdms: 2-3 copies of the tdms "
+        "fixtures of the dclab test suite under shuffled measurement "
+        "prefixes (oracle only); "
         "joinsplit: the parts of a split, renamed to words that are not in "
         "alphabetical order, joined in the order of the split; pysem: the Python "
         "semantics of Common/PyList.v (mutating loop, loop over a copy, str "
@@ -62,7 +67,11 @@ TRUSTED_BASE = [
     "HDF5/h5py store what RTDCWriter is given (C01); logs are compared by "
     "name in the model and by content in the oracle",
     "feature values other than time/frame/index/index_online are opaque to "
-    "the model (bit patterns; images by CRC32)",
+    "the model (bit patterns; images, masks, contours and traces by CRC32 per "
+    "event)",
+    "sample names are ids; join(metadata=None) is modelled (run index 1); the "
+    "run identifier (random uuid part) and the content of the dclab-join "
+    "command log (platform data, md5 of inputs) are not modelled",
 ]
 ASSUMPTIONS = [
     "inputs are non-empty measurements whose features all have the same "
@@ -73,14 +82,25 @@ ASSUMPTIONS = [
     "boundary events removed by skip_initial/final_empty_image are not "
     "counted as lost (documented behaviour of dclab-split)",
     "fractions of a second in experiment:time are multiples of 1/8",
+    "tdms fixtures: features the .rtdc format declares uint32 (fl*_max, ...) "
+    "are compared after the writer's unsigned coercion (the 2fl fixture has "
+    "fl2_max = -20, stored as 0 by RTDCWriter: an observation for C01/C08, "
+    "not judged here)",
+    "contours generated for split are innate and never all-zero (the "
+    "contour branch of skip_empty_image_events is not triggered)",
 ]
 
 FIND_EMPTY_PART = "C09-split-empty-part"
 
 UNIVERSE = sorted([
     "area_cvx", "area_msd", "area_ratio", "area_um", "aspect", "bright_avg",
-    "circ", "deform", "frame", "image", "index", "index_online", "pos_x",
-    "pos_y", "size_x", "size_y", "tilt", "time", "userdef1", "userdef2"])
+    "circ", "contour", "deform", "frame", "image", "index", "index_online",
+    "mask", "pos_x", "pos_y", "size_x", "size_y", "tilt", "time", "trace",
+    "userdef1", "userdef2"])
+NONSCALAR = ("image", "mask", "contour", "trace")
+SAMPLES = ["verif sample", "beads 5um", "blood 1:20", "HL60 ctl"]
+TDMS_FIXTURES = ["fmt-tdms_shapein-2.0.1-no-image_2017",
+                 "fmt-tdms_2fl-no-image_2017"]
 KIND = {"time": 1, "frame": 2, "index_online": 3, "index": 4}
 FID = {f: 10 * i + KIND.get(f, 0) for i, f in enumerate(UNIVERSE)}
 LOGNAMES = ["camera", "log-a", "log-b", "notes"]
@@ -126,7 +146,7 @@ def gen_column(rng, feat, n):
         return out
     if feat == "index":
         return list(range(1, n + 1))
-    if feat == "image":
+    if feat in NONSCALAR:
         return [rng.randint(1, 10 ** 6) for _ in range(n)]
     if feat in ("circ",):
         return [rng.randint(1, 8) / 8 for _ in range(n)]
@@ -167,12 +187,12 @@ def gen_input(rng, names, n, date, tm, run, rate, logs=True):
             lg[name] = ["%s line %d" % (name, rng.randint(0, 999))
                         for _ in range(rng.randint(1, 3))]
     return dict(date=date, time=tm, run=run, rate=rate, n=n, feats=feats,
-                logs=lg)
+                logs=lg, sample=rng.choice(SAMPLES))
 
 
 def gen_join_case(rng, thorough=False):
     k = rng.choice([2, 2, 3, 3, 4, 5])
-    pool = [f for f in UNIVERSE if f != "image"]
+    pool = [f for f in UNIVERSE if f not in NONSCALAR]
     base = set(rng.sample(pool, rng.randint(3, 8)))
     for special in ("time", "frame", "index_online", "index"):
         if rng.random() < 0.45:
@@ -232,12 +252,16 @@ def gen_split_case(rng, thorough=False):
     ks = [1, 2, 3, max(1, n - 1), n, n + 1, 2 * n] + \
         [d for d in range(1, n + 1) if n % d == 0]
     k = rng.choice(ks)
-    names = set(rng.sample([f for f in UNIVERSE if f not in
-                            ("image", "userdef1")], rng.randint(1, 5)))
+    names = set(rng.sample([f for f in UNIVERSE if f not in NONSCALAR
+                            and f != "userdef1"], rng.randint(1, 5)))
     names.add("userdef1")
     with_img = rng.random() < 0.6
     if with_img:
         names.add("image")
+    if rng.random() < 0.35:
+        names.update(["mask", "contour"])     # contour innate: not computed
+    if rng.random() < 0.3:
+        names.add("trace")
     inp = gen_input(rng, names, n, "2024-03-05", "12:10:11", 1,
                     rng.choice(RATES_DYADIC_TIME))
     inp["feats"]["userdef1"] = [float(i) for i in range(n)]   # event tag
@@ -257,13 +281,17 @@ def gen_joinsplit_case(rng, thorough=False):
     n = rng.choice([2, 3, 4, 5, 6, 7, 8, 9, 10])
     k = rng.choice([1, 2, 2, 3, 3, max(1, n - 1), max(1, n // 2),
                     rng.randint(1, n)])
-    names = set(rng.sample([f for f in UNIVERSE if f != "image"],
+    names = set(rng.sample([f for f in UNIVERSE if f not in NONSCALAR],
                            rng.randint(2, 7)))
     for special in ("time", "frame", "index_online", "index"):
         if rng.random() < 0.6:
             names.add(special)
     if rng.random() < 0.25:
         names.add("image")
+    if rng.random() < 0.3:
+        names.update(["mask", "contour"])
+    if rng.random() < 0.3:
+        names.add("trace")
     inp = gen_input(rng, names, n, rng.choice(DATES),
                     "12:00:%02d%s" % (rng.randint(0, 59), rng.choice(FRACS)),
                     rng.choice(RUNS), rng.choice(RATES_DYADIC_TIME))
@@ -284,6 +312,29 @@ def image_of(seed):
     return a.reshape(IMG_SHAPE).astype(np.uint8)
 
 
+def mask_of(seed):
+    """a filled rectangle (never empty) that depends on the seed"""
+    import numpy as np
+    m = np.zeros(IMG_SHAPE, dtype=bool)
+    y0, x0 = seed % 3, (seed // 3) % 4
+    m[y0:y0 + 2 + seed % 2, x0:x0 + 2 + (seed // 7) % 3] = True
+    return m
+
+
+def contour_of(seed):
+    import numpy as np
+    k = 3 + seed % 5
+    pts = [[1 + (seed * (i + 3)) % 7, 1 + (seed // (i + 1)) % 5]
+           for i in range(k)]
+    return np.array(pts, dtype=np.int32)
+
+
+def trace_of(seed, which):
+    import numpy as np
+    a = (np.arange(12, dtype=np.int64) * (17 + which) + seed * 13) % 2000 - 200
+    return a.astype(np.int16)
+
+
 def write_input(path, inp):
     import numpy as np
     from . import gen
@@ -291,15 +342,23 @@ def write_input(path, inp):
     for f, vals in inp["feats"].items():
         if f == "image":
             feats[f] = np.array([image_of(s) for s in vals], dtype=np.uint8)
+        elif f == "mask":
+            feats[f] = np.array([mask_of(s) for s in vals], dtype=bool)
+        elif f == "contour":
+            feats[f] = [contour_of(s) for s in vals]
+        elif f == "trace":
+            feats[f] = {"fl1_raw": np.array([trace_of(s, 0) for s in vals]),
+                        "fl1_median": np.array([trace_of(s, 1) for s in vals])}
         elif f == "frame":
             feats[f] = np.array(vals, dtype=np.uint64)
         elif f in ("index_online", "index"):
             feats[f] = np.array(vals, dtype=np.int64)
         else:
             feats[f] = np.array(vals, dtype=np.float64)
-    meta = gen.base_meta()
+    meta = gen.base_meta(with_fl="trace" in inp["feats"])
     meta["experiment"].update({"date": inp["date"], "time": inp["time"],
-                               "run index": inp["run"]})
+                               "run index": inp["run"],
+                               "sample": inp.get("sample", SAMPLES[0])})
     meta["imaging"]["frame rate"] = inp["rate"]
     spec = dict(n=inp["n"], features=feats, meta=meta)
     gen.write_spec(path, spec, logs=inp["logs"])
@@ -319,9 +378,20 @@ def acq_seconds(inp):
 def enc_values(feat, arr):
     """integer encoding of one feature column (see Model/C09.v)"""
     import numpy as np
-    if feat == "image":
-        return [zlib.crc32(np.ascontiguousarray(arr[i]).tobytes())
-                for i in range(len(arr))]
+    if feat in ("image", "mask"):
+        return [zlib.crc32(np.ascontiguousarray(
+            np.asarray(arr[i], dtype=np.uint8)).tobytes())
+            for i in range(len(arr))]
+    if feat == "contour":
+        return [zlib.crc32(np.ascontiguousarray(
+            np.asarray(arr[i], dtype=np.int64)).tobytes())
+            for i in range(len(arr))]
+    if feat == "trace":
+        keys = sorted(arr.keys())
+        n = len(arr[keys[0]]) if keys else 0
+        data = {k: np.asarray(arr[k][:], dtype=np.int64) for k in keys}
+        return [zlib.crc32(b"".join(k.encode() + data[k][i].tobytes()
+                                    for k in keys)) for i in range(n)]
     a = np.asarray(arr[:])
     if feat == "time":
         out = []
@@ -339,6 +409,7 @@ def enc_values(feat, arr):
 def read_dataset(path):
     """What join sees of an input: innate/available features within the
     universe and the columns of every available feature."""
+    import numpy as np
     import dclab
     with dclab.new_dataset(path) as ds:
         innate = [f for f in ds.features_innate if f in FID]
@@ -346,11 +417,34 @@ def read_dataset(path):
         cols = {}
         raw = {}
         for f in avail:
-            raw[f] = ds[f][:]
-            cols[f] = enc_values(f, raw[f])
+            if f in NONSCALAR:
+                cols[f] = enc_values(f, ds[f])
+                raw[f] = np.array(cols[f], dtype=np.int64)
+            else:
+                raw[f] = ds[f][:]
+                cols[f] = enc_values(f, raw[f])
         logs = {k: list(ds.logs[k]) for k in ds.logs.keys()}
         n = len(ds)
-    return dict(innate=innate, avail=avail, cols=cols, raw=raw, logs=logs, n=n)
+        sample = ds.config["experiment"].get("sample", "")
+    return dict(innate=innate, avail=avail, cols=cols, raw=raw, logs=logs, n=n,
+                sample=sample)
+
+
+def feature_array(ds, f):
+    """values of a feature for comparisons: checksums per event for
+    non-scalar features"""
+    import numpy as np
+    if f in NONSCALAR:
+        return np.array(enc_values(f, ds[f]), dtype=np.int64)
+    return np.asarray(ds[f][:])
+
+
+def sample_id(name):
+    """id of a sample name; the suffix ' i/n' that split appends is dropped
+    (it is checked by the split oracle)"""
+    import re
+    name = re.sub(r" \d+/\d+$", "", name)
+    return SAMPLES.index(name) if name in SAMPLES else 99
 
 
 def zl(xs):
@@ -366,12 +460,12 @@ def render_meas(inp, info):
     cols = common.clist(["(%d, %s)" % (FID[f], zl(info["cols"][f]))
                          for f in info["avail"]])
     lognames = sorted(LOGID[n] for n in info["logs"] if n in LOGID)
-    return "(%s, %s, %s, %s, %s, %s, %s, %s)" % (
+    return "(%s, %s, %s, %s, %s, %s, %s, %s, %d)" % (
         s(inp["date"]), s(inp["time"]), common.zlit(inp["run"]),
         common.zlit(int(rate8)),
         zl([FID[f] for f in info["innate"]]),
         zl([FID[f] for f in info["avail"]]), cols,
-        zl(lognames))
+        zl(lognames), sample_id(inp.get("sample", SAMPLES[0])))
 
 
 def enc_logname(name):
@@ -412,6 +506,13 @@ def encode_joined(path_out, order):
         flat += [len(logs)]
         for a, b in logs:
             flat += [a, b]
+        exp = ds.config["experiment"]
+        date = [ord(c) for c in str(exp.get("date", ""))]
+        tm = [ord(c) for c in str(exp.get("time", ""))]
+        flat += [len(date)] + date + [len(tm)] + tm
+        flat += [sample_id(str(exp.get("sample", ""))),
+                 int(exp.get("run index", -1)),
+                 int(exp.get("event count", -1))]
     return flat
 
 
@@ -425,7 +526,8 @@ def py_round_half_even(x):
     return round(x)
 
 
-def join_oracle(inputs, infos, order_impl_unused, path_out, exc):
+def join_oracle(inputs, infos, order_impl_unused, path_out, exc,
+                universe=None):
     """Model-independent judgement of one join. Returns description or None."""
     import numpy as np
     import dclab
@@ -438,7 +540,8 @@ def join_oracle(inputs, infos, order_impl_unused, path_out, exc):
     feats = [f for f in sorted(first["innate"])
              if all(f in infos[j]["avail"] for j in order[1:])]
     with dclab.new_dataset(path_out) as ds:
-        got = sorted(f for f in ds.features_innate if f in FID)
+        universe = FID if universe is None else universe
+        got = sorted(f for f in ds.features_innate if f in universe)
         if got != sorted(feats):
             return "features of the joined file %s, common features %s" % (
                 got, sorted(feats))
@@ -465,8 +568,8 @@ def join_oracle(inputs, infos, order_impl_unused, path_out, exc):
             want = np.concatenate(parts)
             if f == "index":
                 want = np.arange(1, ntot + 1)
-            have = ds[f][:]
-            if f == "image":
+            have = feature_array(ds, f)
+            if f in NONSCALAR:
                 same = bool(np.array_equal(np.asarray(have), want))
             else:
                 same = bool(np.array_equal(
@@ -487,6 +590,23 @@ def join_oracle(inputs, infos, order_impl_unused, path_out, exc):
                     return "log %s of input %d not retained" % (name, j)
                 if outlogs[key] != lines:
                     return "log %s of input %d changed" % (name, j)
+        if "dclab-join" not in outlogs:
+            return "log dclab-join missing"
+        # metadata: those of the earliest input, run index 1, event count
+        exp = ds.config["experiment"]
+        e0 = inputs[order[0]]
+        want_meta = dict(date=e0["date"], time=e0["time"],
+                         sample=infos[order[0]]["sample"])
+        for key, val in want_meta.items():
+            if str(exp.get(key)) != str(val):
+                return ("experiment:%s of the joined file is %r, the earliest "
+                        "input (%d) has %r" % (key, exp.get(key), order[0], val))
+        if exp.get("run index") != 1:
+            return "experiment:run index of the joined file is %r, not 1" % (
+                exp.get("run index"),)
+        if exp.get("event count") != ntot:
+            return "experiment:event count is %r, the inputs hold %d events" % (
+                exp.get("event count"), ntot)
     return None
 
 
@@ -579,6 +699,33 @@ def split_has_empty_part(case):
     return False
 
 
+def check_basin(ds, ids, info, pi):
+    """the basin a split part keeps to its input maps its events to the
+    right input events"""
+    import numpy as np
+    if "basinmap0" not in ds.features_innate:
+        return "part %d has no basin map" % (pi + 1)
+    bm = [int(v) for v in ds["basinmap0"][:]]
+    if bm != ids:
+        return "part %d: basinmap0 is %s, its events are input events %s" % (
+            pi + 1, bm, ids)
+    bns = [b for b in ds.basins if b.mapping == "basinmap0"]
+    if not bns:
+        return "part %d: no basin uses basinmap0" % (pi + 1)
+    bn = bns[0]
+    if not bn.is_available():
+        return "part %d: the basin to the input file is not available" % (pi + 1)
+    for f in info["innate"]:
+        if f in NONSCALAR or f == "index":
+            continue
+        via = np.asarray(bn.ds[f][:])
+        want = np.asarray(info["raw"][f])[ids]
+        if via.shape != want.shape or not np.array_equal(via, want):
+            return "part %d: %s through the basin is %s, input events give %s" % (
+                pi + 1, f, _short(via), _short(want))
+    return None
+
+
 def exec_split(case, wd):
     import numpy as np
     import dclab
@@ -626,6 +773,23 @@ def exec_split(case, wd):
         with dclab.new_dataset(pp) as ds:
             ids = [int(v) for v in ds["userdef1"][:]]
             impl += [len(ids)] + ids
+            # sample name: "<sample> i/num_files"
+            sname = str(ds.config["experiment"].get("sample", ""))
+            head, _, tail = sname.rpartition(" ")
+            try:
+                si, sn = (int(x) for x in tail.split("/"))
+            except ValueError:
+                si, sn = -1, -1
+            impl += [si, sn]
+            if fail is None and (head != info["sample"] or si != pi + 1
+                                 or sn != len(paths)):
+                fail = "part %d: sample name %r, expected %r" % (
+                    pi + 1, sname, "%s %d/%d" % (info["sample"], pi + 1,
+                                                 len(paths)))
+            # the mapped basin back to the input: part event i is input
+            # event basinmap0[i]; features read through the basin agree
+            if fail is None:
+                fail = check_basin(ds, ids, info, pi)
             if len(ds) > k and fail is None:
                 fail = "part %d holds %d events, split_events=%d" % (
                     pi + 1, len(ds), k)
@@ -637,7 +801,7 @@ def exec_split(case, wd):
                     pi + 1, pf, sorted(info["innate"]))
             for f in info["innate"]:
                 if f in ds.features_innate:
-                    collected[f].append(np.asarray(ds[f][:]))
+                    collected[f].append(feature_array(ds, f))
             if "index" in ds.features_innate and fail is None:
                 if list(ds["index"][:]) != list(range(1, len(ds) + 1)):
                     fail = "part %d: index is not 1..N" % (pi + 1)
@@ -672,6 +836,73 @@ def exec_split(case, wd):
                 nontrivial=(len(paths) > 1 or s0 or s1), tags=tags,
                 nparts_expected=nparts_expected)
 
+
+
+# --------------------------------------------------------------------------
+# join of the tdms fixtures of dclab's test suite (oracle only: real data,
+# not multiples of 1/8)
+# --------------------------------------------------------------------------
+def gen_tdms_case(rng):
+    k = rng.choice([2, 2, 3])
+    fx = [rng.choice([0, 0, 1]) for _ in range(k)]
+    return dict(kind="jointdms", fixtures=fx,
+                prefixes=rng.sample(range(1, 10), k))
+
+
+def exec_jointdms(case, wd):
+    import zipfile
+    import numpy as np
+    import dclab
+    from dclab import definitions as dfn
+    from dclab.cli import join
+    from dclab.rtdc_dataset.writer import FEATURES_UINT32
+    paths = []
+    for i, (fx, pre) in enumerate(zip(case["fixtures"], case["prefixes"])):
+        zp = os.path.join(common.REPO, "tests", "data",
+                          TDMS_FIXTURES[fx] + ".zip")
+        if not os.path.exists(zp):
+            return dict(impl=None, coq=None, fn=None, fail=None, finding=None,
+                        nontrivial=False, tags=["jointdms:fixture-missing"])
+        sd = os.path.join(wd, "t%d" % i)
+        zipfile.ZipFile(zp).extractall(sd)
+        for name in os.listdir(sd):          # measurement prefix M1_ -> Mn_
+            if name.startswith("M1_"):
+                os.rename(os.path.join(sd, name),
+                          os.path.join(sd, "M%d_" % pre + name[3:]))
+        paths.append(os.path.join(sd, "M%d_data.tdms" % pre))
+    inputs, infos = [], []
+    for pth in paths:
+        with dclab.new_dataset(pth) as ds:
+            exp = ds.config["experiment"]
+            inputs.append(dict(date=exp["date"], time=exp["time"],
+                               run=exp["run index"],
+                               rate=ds.config["imaging"]["frame rate"]))
+            innate = [f for f in ds.features_innate
+                      if dfn.scalar_feature_exists(f)]
+            avail = [f for f in ds.features if dfn.scalar_feature_exists(f)]
+            raw = {}
+            for f in innate:
+                raw[f] = np.asarray(ds[f][:])
+                if f in FEATURES_UINT32:
+                    # the .rtdc format stores these as uint32: a negative
+                    # value of the tdms data (fl2_max = -20 in the 2fl
+                    # fixture) is stored as 0 by RTDCWriter (see report)
+                    raw[f] = np.where(raw[f] < 0, 0, raw[f])
+            infos.append(dict(innate=innate, avail=avail, raw=raw, n=len(ds),
+                              logs={k: list(ds.logs[k]) for k in ds.logs.keys()},
+                              sample=exp.get("sample", "")))
+    universe = set(f for i in infos for f in i["avail"])
+    path_out = os.path.join(wd, "out.rtdc")
+    exc = None
+    try:
+        join(paths_in=list(paths), path_out=path_out)
+    except Exception as e:
+        exc = "%s: %s" % (type(e).__name__, str(e)[:160])
+    fail = join_oracle(inputs, infos, None, path_out, exc, universe=universe)
+    return dict(impl=None, coq=None, fn=None, fail=fail, finding=None,
+                nontrivial=True,
+                tags=["jointdms:k=%d" % len(paths),
+                      "jointdms:" + ("ok" if exc is None else "error")])
 
 # --------------------------------------------------------------------------
 # join of split
@@ -729,10 +960,17 @@ def exec_joinsplit(case, wd):
                 jf, sorted(info["innate"]))
         elif len(dj) != n:
             fail = "joined parts have %d events, the original %d" % (len(dj), n)
+        elif str(dj.config["experiment"].get("sample")) != "%s 1/%d" % (
+                info["sample"], len(paths)):
+            fail = "sample of the joined parts is %r" % (
+                dj.config["experiment"].get("sample"),)
+        elif dj.config["experiment"].get("event count") != n:
+            fail = "event count of the joined parts is %r, not %d" % (
+                dj.config["experiment"].get("event count"), n)
         else:
             for f in info["innate"]:
                 want = np.asarray(info["raw"][f])
-                have = np.asarray(dj[f][:])
+                have = feature_array(dj, f)
                 if f == "index_online":
                     # documented rule: each later part is shifted by the last
                     # value written so far + 1
@@ -776,7 +1014,7 @@ def strip_source_logs(flat):
     out = flat[:p] + [len(keep)]
     for a, b in keep:
         out += [a, b]
-    return out
+    return out + flat[p + 1 + 2 * nl:]
 
 
 
@@ -872,6 +1110,8 @@ def exec_case(args):
             return exec_join(case, wd)
         if case["kind"] == "split":
             return exec_split(case, wd)
+        if case["kind"] == "jointdms":
+            return exec_jointdms(case, wd)
         return exec_joinsplit(case, wd)
     except Exception as e:      # harness problem, not a judgement
         import traceback
@@ -913,6 +1153,7 @@ def run(run):
     cases += [gen_join_case(run.rng, run.thorough) for _ in range(nj)]
     cases += [gen_split_case(run.rng, run.thorough) for _ in range(ns)]
     cases += [gen_joinsplit_case(run.rng, run.thorough) for _ in range(njs)]
+    cases += [gen_tdms_case(run.rng) for _ in range(40 if run.thorough else 4)]
     file_cases = [c for c in cases if c["kind"] != "pysem"]
     py_cases = [c for c in cases if c["kind"] == "pysem"] + \
         [gen_pysem_case(run.rng) for _ in range(npy)]
